@@ -106,7 +106,7 @@ pub fn run(eng: &Engine) {
     eng.set_rule("frames from three sources (reference-compressed under generated configurations; reference parses perturbed and pushed through ZSTD_compressSequences; spec-directed synthesized frames arbitrated by the reference decoder), each decoded by four drivers; non-trivial = contains a compressed block with >= 1 sequence or Huffman-coded literals (per the model walker); distinct by frame hash");
     eng.assume("libzstd 1.5.7 is the arbiter of validity; the RFC-transcribed model walker is self-tested against it in every run");
     selftest::code_tables(eng);
-    let n = eng.tier.pick(6_000, 150_000);
+    let n = eng.tier.pick(30_000, 400_000);
     let tier = eng.tier;
     eng.run_stage("frames", n, || frame_case_strategy(tier), check_frame);
     let rej = SYNTH_REJECTED.load(Ordering::Relaxed);
